@@ -317,7 +317,7 @@ class SepWorld(BaseWorld):
         self.no_negatives(ev, [ev['top'], ev['bottom']], False)
         return 'ok'
 
-    def _moisture_check(self, ev, ret, per, mc, before_total, r):
+    def _moisture_check(self, ev, ret, per, mc, before_total, r, F_ref=0.0):
         pk = self.pk
         if isinstance(self.S[ret], tmo.MultiStream) or isinstance(self.S[per], tmo.MultiStream):
             self.stats['moisture_on_multiphase_after_fallback'] += 1
@@ -346,7 +346,11 @@ class SepWorld(BaseWorld):
         mass = a * pk.MW
         if ev.get('strict') in (None, True) or b[w] > 0:
             frac = mass[w] / mass.sum() if mass.sum() else 0.0
-            if abs(frac - mc) > 1e-6:
+            # the helper obtains the dry mass as (total mass - water mass): when the retentate is almost pure
+            # water that difference carries a relative rounding error of about eps * total / dry
+            dry = float(mass.sum() - mass[w])
+            tol = 1e-6 + (100 * 2.3e-16 * F_ref / dry if dry > 0 else 1.0)
+            if abs(frac - mc) > tol:
                 self.fail('moisture', f'retentate moisture fraction is {frac}, requested {mc}', {'event': ev})
         return 'ok'
 
@@ -354,9 +358,10 @@ class SepWorld(BaseWorld):
         ret, per = self.S[ev['retentate']], self.S[ev['permeate']]
         before = self.mol(ev['retentate']) + self.mol(ev['permeate'])
         ID = 'Water' if ev['by_ID'] else None
+        F_ref = float((self.mol(ev['retentate']) * self.pk.MW).sum())
         r = self.call(ev, lambda: sep.adjust_moisture_content(ret, per, ev['mc'], ID, ev['strict']))
         self.stats['mechanism_ops'] += 1
-        return self._moisture_check(ev, ev['retentate'], ev['permeate'], ev['mc'], before, r)
+        return self._moisture_check(ev, ev['retentate'], ev['permeate'], ev['mc'], before, r, F_ref)
 
     def do_mix_split_moisture(self, ev):
         ins = [self.S[n] for n in ev['ins']]
@@ -371,7 +376,8 @@ class SepWorld(BaseWorld):
         r = self.call(ev, lambda: sep.mix_and_split_with_moisture_content(ins, top, bottom, split, ev['mc'], None,
                                                                           ev['strict']))
         self.stats['mechanism_ops'] += 1
-        return self._moisture_check(ev, ev['top'], ev['bottom'], ev['mc'], before, r)
+        return self._moisture_check(ev, ev['top'], ev['bottom'], ev['mc'], before, r,
+                                    float((before * split * pk.MW).sum()))
 
     def do_partition(self, ev):
         pk = self.pk
